@@ -60,7 +60,7 @@ func contractsFor(specs *Specs, prop string) []*Contract {
 		if c.External || c.Trusted {
 			continue
 		}
-		rel := hasProp(c.Props, prop)
+		rel := hasProp(c.Props, prop) || hasProp(c.FrameProps, prop)
 		for _, cl := range append(append([]*Clause{}, c.Ensures...), c.Requires...) {
 			if hasProp(cl.Props, prop) {
 				rel = true
